@@ -53,7 +53,11 @@ def gen_policy_cases(rng, n, prefix="p"):
                 ops.append(["est", k, est[k]])
         for k in keys:
             ops.append(["estcheck", k])
-        lo = max(1, max_cost // 5 + 1) if not big else 1
+        # small cases must be decided by the estimates alone, whatever Go's map order puts into the 5-slot sample: either
+        # there are at most 5 keys, or every cost exceeds a fifth of the largest MaxCost the case can reach (updmax adds
+        # up to 39) and no cost is 0, so that at most 4 keys are ever accounted
+        tight = (not big) and nkeys > 5
+        lo = ((max_cost + 40) // 5 + 1 if tight else max(1, max_cost // 5 + 1)) if not big else 1
         hi = max(lo + 1, max_cost * 3 // 5) if not big else max(2, max_cost // 6)
         for _ in range(rng.randrange(8, 60)):
             r = rng.random()
@@ -61,7 +65,7 @@ def gen_policy_cases(rng, n, prefix="p"):
             if r < 0.55:
                 c = rng.randrange(lo, hi + 1)
                 if rng.random() < 0.06:
-                    c = rng.choice([0, max_cost, max_cost + 1, 10 * max_cost])
+                    c = rng.choice(([] if tight else [0]) + [max_cost, max_cost + 1, 10 * max_cost])
                 ops.append(["add", k, c])
             elif r < 0.68:
                 ops.append(["upd", k, rng.randrange(lo, hi + 1)])
